@@ -117,10 +117,14 @@ func c04syntheticModule() map[string]ugo.Object {
 		"err": &ugo.Error{Name: "ModErr", Message: "m"}, "sync": &ugo.SyncMap{Value: ugo.Map{"a": ugo.Int(1)}},
 		"fn":  &ugo.Function{Name: "fn", Value: func(a ...ugo.Object) (ugo.Object, error) { return ugo.Int(len(a)), nil }},
 		"bfn": ugo.BuiltinObjects[ugo.BuiltinTypeName],
+		// functions nested in container attributes
+		"ops":    ugo.Map{"double": &ugo.Function{Name: "double", Value: func(a ...ugo.Object) (ugo.Object, error) { return ugo.Int(2 * len(a)), nil }}, "k": ugo.Int(5)},
+		"hooks":  ugo.Array{&ugo.Function{Name: "h0", Value: func(a ...ugo.Object) (ugo.Object, error) { return ugo.String("h0"), nil }}, ugo.Int(1), ugo.Map{"deep": &ugo.Function{Name: "deep", Value: func(a ...ugo.Object) (ugo.Object, error) { return ugo.String("deep"), nil }}}},
+		"smapfn": &ugo.SyncMap{Value: ugo.Map{"f": &ugo.Function{Name: "sf", Value: func(a ...ugo.Object) (ugo.Object, error) { return ugo.String("sf"), nil }}}},
 	}
 }
 
-const c04synthUser = "global L\nparam p\nm := import(\"synth\")\nr := [m.izero, m.ione, m.uzero, m.fzero, m.fneg, m.czero, m.ca, m.sempty, m.s, m.t, m.f, m.undef, m.bytes, m.bempty, m.arr, m.aempty, m.map, m.mempty, string(m.err), m.sync, m.fn(1, 2), m.bfn(1), m.__module_name__]\nm.arr[0] = 99\nm.map.k = 98\nreturn p ? r : [import(\"synth\").arr, import(\"synth\").map]\n"
+const c04synthUser = "global L\nparam p\nm := import(\"synth\")\nr := [m.izero, m.ione, m.uzero, m.fzero, m.fneg, m.czero, m.ca, m.sempty, m.s, m.t, m.f, m.undef, m.bytes, m.bempty, m.arr, m.aempty, m.map, m.mempty, string(m.err), m.sync, m.fn(1, 2), m.bfn(1), m.__module_name__, m.ops.double(1, 2, 3), m.ops.k, m.hooks[0](), m.hooks[2].deep(), m.smapfn.f()]\nm.arr[0] = 99\nm.map.k = 98\nreturn p ? r : [import(\"synth\").arr, import(\"synth\").map]\n"
 
 func bytecodeKinds(c *core.Ctx, bc *ugo.Bytecode) (jumps int, nonScalar int) {
 	for _, k := range bc.Constants {
